@@ -71,20 +71,38 @@ class C01(RailsProp):
     thorough_runs = 30000
 
     def generate(self, d, index, tier):
-        return convo.gen_spec(d)
+        sc = convo.gen_spec(d)
+        if sc["colang"] == "1.0" and d.chance(0.3, "per-turn-options"):
+            # requests may carry generation options of their own; a request that switched the input rails off for itself (not
+            # judged) must not weaken the gate of the next request
+            for t, turn in enumerate(sc["convs"][0]["turns"]):
+                o = d.weighted([("none", 4), ("input-off", 3), ("output-off", 1), ("log", 1), ("llm-params", 1)], "topt", t)
+                if o != "none":
+                    turn["options"] = {"output-off": {"rails": {"output": False}}, "input-off": {"rails": {"input": False}}, "log": {"log": {"activated_rails": True}},
+                                       "llm-params": {"llm_params": {"temperature": 0.2}}}[o]
+        return sc
 
     def execute(self, sc):
         out = Outcome()
         tr = Trace(sc.get("run_seed"))
-        world, records = RR.run_conversations(sc, tr=tr)
+        turns = sc["convs"][0]["turns"] if sc.get("convs") else []
+        world, records = RR.run_conversations(sc, tr=tr, options_fn=(lambda c, t: sc["convs"][c]["turns"][t].get("options")) if any(t.get("options") for t in turns) else None)
         cc = cfgclass(sc)
         out.evaluations = max(1, len(records))
+        input_off_before = False
         for rec in records:
             if rec.status != "ok":
                 out.inconclusive = "generate raised %s" % type(rec.exc).__name__
                 tr.log("exc", repr(rec.exc))
                 continue
-            RR.check_c01(sc, rec, out, cc)
+            opts = sc["convs"][rec.conv]["turns"][rec.t].get("options") or {}
+            if (opts.get("rails") or {}).get("input") is False:
+                out.probe("turn_with_input_rails_switched_off")
+                input_off_before = True
+                continue
+            if input_off_before:
+                out.probe("checked_after_options-input-off")
+            RR.check_c01(sc, rec, out, cc + (":after-options-input-off" if input_off_before else ""))
             kinds = [k for k in RR.turn_outcome_kinds(sc, rec) if k.startswith("input")]
             if kinds or rec.t > 0:
                 out.nontrivial_sigs.append((cc, tuple(r["kind"] for r in sc["in_rails"]), tuple(sorted(kinds)), rec.t, bool(sc.get("exceptions"))))
